@@ -37,7 +37,7 @@ fn n_items(prop: &str, tier: &str) -> usize {
         "C16" => c16::n_items(tier),
         "C15" => c15::n_items(tier),
         "C07" => procmc::n_items(tier),
-        "C02" | "C03" | "C05" | "C10" | "C11" => sysprops::n_items(prop, tier),
+        "C02" | "C03" | "C05" | "C08" | "C10" | "C11" => sysprops::n_items(prop, tier),
         _ => 0,
     }
 }
@@ -53,7 +53,7 @@ fn run_item(prop: &str, tier: &str, idx: usize, only: Option<&Value>) -> sys::MR
         "C16" => c16::run_item(tier, idx, only),
         "C15" => c15::run_item(tier, idx, only),
         "C07" => procmc::run_item(tier, idx, only),
-        "C02" | "C03" | "C05" | "C10" | "C11" => sysprops::run_item(prop, tier, idx, only),
+        "C02" | "C03" | "C05" | "C08" | "C10" | "C11" => sysprops::run_item(prop, tier, idx, only),
         _ => sys::mach(format!("no engine for {}", prop)),
     }
 }
@@ -69,7 +69,7 @@ fn report(prop: &str, tier: &str) -> Report {
         "C16" => c16::report(tier),
         "C15" => c15::report(tier),
         "C07" => procmc::report(tier),
-        "C02" | "C03" | "C05" | "C10" | "C11" => sysprops::report(prop, tier),
+        "C02" | "C03" | "C05" | "C08" | "C10" | "C11" => sysprops::report(prop, tier),
         _ => unreachable!(),
     }
 }
